@@ -7,7 +7,7 @@ CONC_ALL = ["basic", "mixed", "guards", "nofast", "helping", "cas", "multi", "ch
 PROPS = {
     "C01": dict(props="Props/C01.v", runner="conc",
                 families=["mixed", "guards", "nofast", "helping", "multi", "churn"],
-                scenarios=["s01", "s02", "s03", "s04", "s05", "s06", "s07", "s10", "s13", "s14"], deep=["s03"]),
+                scenarios=["s01", "s02", "s03", "s04", "s05", "s06", "s07", "s10", "s13", "s14"], deep=["s03"], prot_check=True),
     "C02": dict(props="Props/C02.v", runner="conc",
                 families=["basic", "mixed", "guards", "helping", "cas", "multi"],
                 scenarios=["s01", "s02", "s03", "s04", "s07", "s08", "s09", "s11", "s13", "s14", "s16"], acc_check=True),
